@@ -46,6 +46,15 @@ func runC19(o *out, r *rng, thorough bool, replay string) {
 			}
 			entries = append(entries, g.newEntry(p))
 		}
+		boundary := i%5 == 4 // a table whose scaled total is not a multiple of 3 and a signer set exactly one unit short of 2/3
+		if boundary {
+			total := int64(65534)
+			if r.bool() {
+				total = 65533
+			}
+			xx := (total + 2) / 3
+			entries = gpbft.PowerEntries{g.newEntry(xx), g.newEntry(xx), g.newEntry(total - 2*xx)}
+		}
 		pt := gpbft.NewPowerTable()
 		must(pt.Add(entries...))
 		prior := r.intn(3)
@@ -60,7 +69,26 @@ func runC19(o *out, r *rng, thorough bool, replay string) {
 		dValue := value
 		tamperSig := false
 		extraSigner := -1
-		switch r.intn(11) {
+		pick := r.intn(11)
+		if boundary {
+			pick = 100
+			// the largest member and the smallest one: power = total - ceil(total/3) = floor(2*total/3) < 2/3 of the total
+			small, large := 0, 0
+			for k := range pt.Entries {
+				if pt.ScaledPower[k] < pt.ScaledPower[small] {
+					small = k
+				}
+				if pt.ScaledPower[k] > pt.ScaledPower[large] {
+					large = k
+				}
+			}
+			signers = []int{large, small}
+			if 3*(pt.ScaledPower[large]+pt.ScaledPower[small]) < 2*pt.ScaledTotal {
+				kind = "under-powered"
+				o.Dist["oracle-boundary-one-unit-short"]++
+			}
+		}
+		switch pick {
 		case 0:
 			dInst = inst + 1
 			kind = "instance"
